@@ -28,7 +28,7 @@ func runC18(c *Ctx) {
 	c.Rule("C18.L", "liveness gate", 7)
 	c.Rule("C18.F", "shared fallback only when the user has no match", 3)
 	c.Rule("C18.N", "404 when the lookup fails", 1)
-	c.Rule("C18.S", "shape of the most-specific-prefix selection", 6)
+	c.Rule("C18.S", "shape of the most-specific-prefix selection", 7)
 	c.Rule("C18.C", "no cache or memo in front of the routing decision", 2)
 	const sp = ModPath + "/app/store"
 	hb := "(*" + sp + ".persistentStore).hasBackend"
@@ -217,6 +217,14 @@ func runC18(c *Ctx) {
 			}
 		})
 		c.Check("C18.S", "selection:pure-and-deterministic", p, f.Pos(), bad == "", "calls only strings.HasPrefix, len and fmt.Errorf, reads no package variable, ranges only over slices: the choice depends only on (path, backends)", "mostSpecificMatchingBackend "+bad+": the rule cannot establish that the choice depends only on the registered backends and the path")
+		// every prefix of every backend is considered: neither loop is left early
+		ex, nl := LoopEarlyExits(f)
+		why := ""
+		if len(ex) > 0 {
+			last := ex[0].From.Instrs[len(ex[0].From.Instrs)-1]
+			why = "the loop headed at " + p.Pos(firstPos(ex[0].Header)) + " is left early from " + p.Pos(last.Pos()) + firstPosStr(p, ex[0].From)
+		}
+		c.Check("C18.S", "selection:all-prefixes-of-all-backends-considered", p, f.Pos(), len(ex) == 0 && nl == 2, "two nested loops (backends × path prefixes), each left only when its range is exhausted: every registered prefix takes part in the comparison", fmt.Sprintf("the selection does not examine every prefix of every backend (%d loops; %s): a backend is judged by the first prefix that matches rather than its longest one, or later backends are never compared — a longer matching prefix can lose", nl, why))
 		// the two result phis
 		var idPhi, pfxPhi *ssa.Phi
 		var updBlk *ssa.BasicBlock
@@ -381,4 +389,20 @@ func runC18(c *Ctx) {
 			}
 		}
 	}
+}
+
+func firstPos(b *ssa.BasicBlock) token.Pos {
+	for _, i := range b.Instrs {
+		if i.Pos() != token.NoPos {
+			return i.Pos()
+		}
+	}
+	return token.NoPos
+}
+
+func firstPosStr(p *Prog, b *ssa.BasicBlock) string {
+	if fp := firstPos(b); fp != token.NoPos {
+		return " (block at " + p.Pos(fp) + ")"
+	}
+	return ""
 }
